@@ -111,12 +111,33 @@ impl Prop for C04 {
         cfg.density16 = *r.pick(&[5, 8, 12]);
         cfg.allow_end = true;
         let machines = gen_machines(&mut r, &cfg, 0, 5);
+        let wide = crate::gen::wide_width(&mut r, cx.case);
+        let huge = wide.is_some_and(|w| w.0 > 65_535);
+        let layout = wide.map_or(0, |w| w.1);
+        let width = wide.map(|w| w.0);
+        let machines = match width {
+            // beyond 2^16 machines: small ones, or the line-up does not fit the worker's memory
+            Some(w) if huge => {
+                let mut small: Vec<Machine> = machines.into_iter().filter(|m| m.states.len() <= 3).take(2).collect();
+                while small.is_empty() {
+                    let mut c = cfg.clone();
+                    c.max_states = 2;
+                    small = gen_machines(&mut r, &c, 1, 2);
+                }
+                crate::gen::widen(small, w, layout)
+            }
+            Some(w) => crate::gen::widen(machines, w, layout),
+            None => machines,
+        };
+        if machines.len() > 32 {
+            out.bump(if huge { "cases_with_more_than_65536_machines" } else { "cases_with_more_than_32_machines" });
+        }
         let pf = gen_frac(&mut r);
         let bf = gen_frac(&mut r);
         let rng_seed = rand_core::RngCore::next_u64(&mut r);
         let start = VClock(1 << 40);
         let h = HCfg {
-            calls: r.range(5, 200) as usize,
+            calls: if huge { r.range(5, 30) as usize } else { r.range(5, 200) as usize },
             max_batch: *r.pick(&[1, 2, 4, 8, 16]),
             empty: true,
             backwards: true,
@@ -144,18 +165,21 @@ impl Prop for C04 {
             h,
             max_time: u64::MAX,
             extra16: 0,
+            script: None,
         };
         match run_scenario(sc, &mut r, &mut mon, out, |_, _| None) {
             Ok(s) => {
                 out.add("calls", s.calls);
                 out.add("actions_returned", s.actions);
                 if s.actions > 0 && (mon.ended_calls > 0 || mon.clamped > 0) {
-                    out.nontrivial(hash_of(&(machines.iter().map(|m| m.serialize()).collect::<Vec<_>>(), s.hist_hash)));
+                    out.nontrivial(hash_of(&(machines.iter().take(8).map(|m| m.serialize()).collect::<Vec<_>>(), machines.len(), s.hist_hash)));
                 }
+                if machines.len() <= 8 {
                 out.sample(|| {
                     json!({"machines": crate::drive::machines_json(&machines), "history_head": s.trace.iter().take(8).collect::<Vec<_>>(),
                            "actions": s.actions, "calls_with_ended_machine": mon.ended_calls, "clamped_to_one_day": mon.clamped})
                 });
+                }
             }
             Err((sig, msg, trace)) => out.violation(sig, msg, witness(&machines, pf, bf, rng_seed, start, &trace)),
         }
